@@ -87,15 +87,19 @@ type wireOp struct {
 	// inexpressible: the request asks for something the negotiated version cannot carry (a
 	// custom payload before protocol 4); it must fail on the client, nothing of it is sent
 	inexpressible bool
-	trace         bool
-	named         bool
-	noSkipMeta    bool
-	binds         []wireBind
-	batchType     gocql.BatchType
-	entries       []wireEntry
-	consumer      int
-	resp          wireResp
-	invokeAt      time.Time
+	// rebind: the same *Query is executed first with binds0, then given the real values with
+	// Query.Bind and executed again; the second EXECUTE must carry the new values
+	rebind     bool
+	binds0     []wireBind
+	trace      bool
+	named      bool
+	noSkipMeta bool
+	binds      []wireBind
+	batchType  gocql.BatchType
+	entries    []wireEntry
+	consumer   int
+	resp       wireResp
+	invokeAt   time.Time
 
 	mainSeen int
 }
@@ -323,6 +327,12 @@ func runWire(e *Env) {
 			if op.inexpressible {
 				k.Violate("C03", "C03/inexpressible-request-sent", "%s asks for a custom payload on protocol %d, which cannot carry one; the request was sent all the same", op.token, proto)
 			}
+			if op.rebind && op.mainSeen == 1 {
+				// the execution before the values were changed: answered with nothing to read
+				wireCheckParams(k, op, rq, proto, keyspace, pageDefault, op.binds0)
+				send(&cqlspec.Response{Op: cqlspec.OpResult, Kind: cqlspec.KindVoid}, "VOID "+p.token+" (before rebinding)")
+				return
+			}
 			wireCheckParams(k, op, rq, proto, keyspace, pageDefault, op.binds)
 			send(wireBuildResp(op, rq, proto), strings.ToUpper(op.resp.kind)+" "+p.token)
 		case cqlspec.OpBatch:
@@ -486,6 +496,18 @@ func wireGenOp(k *kernel.Kernel, token string, proto int) *wireOp {
 		for i := range ph {
 			ph[i] = fmt.Sprintf("c%d = ?", i)
 		}
+		if n > 0 && !op.named && tp.Chance(1, 8) {
+			op.rebind = true
+			for _, b := range op.binds {
+				v, enc := genValue(tp, b.t, proto)
+				wb := wireBind{t: b.t, val: v, bytes: enc}
+				if b.t.ID == cqlspec.TInet {
+					wb.val = v.(string)
+				}
+				op.binds0 = append(op.binds0, wb)
+			}
+			k.Fault("req.values-rebound-on-the-same-query")
+		}
 		op.stmt = "SELECT * FROM ks.t /*" + token + "*/ WHERE " + strings.Join(ph, " AND ")
 		if n == 0 {
 			op.stmt = "SELECT * FROM ks.t /*" + token + "*/"
@@ -557,6 +579,10 @@ func wireGenResp(k *kernel.Kernel, op *wireOp, proto int) wireResp {
 		r.global = tp.Next(2) == 0
 		metaOnly := tp.Chance(1, 5)
 		nc := 1 + tp.Next(5)
+		if !metaOnly && tp.Chance(1, 20) {
+			nc = 0 // a result without columns (and so without rows): well-formed
+			k.Fault("resp.rows-without-columns")
+		}
 		for i := 0; i < nc; i++ {
 			c := wireCol{name: fmt.Sprintf("col%d", i)}
 			if metaOnly {
@@ -570,7 +596,9 @@ func wireGenResp(k *kernel.Kernel, op *wireOp, proto int) wireResp {
 			k.Fault("resp.deep-metadata")
 		} else {
 			nr := tp.Next(5)
-			if tp.Chance(1, 16) {
+			if nc == 0 {
+				nr = 0
+			} else if tp.Chance(1, 16) {
 				// a long page of rows that all look alike (compresses very well)
 				nr = 200 + tp.Next(500)
 				var row []wireCell
@@ -921,8 +949,8 @@ func wireRunOp(k *kernel.Kernel, sess *gocql.Session, op *wireOp, proto int, tra
 	var info *gocql.QueryInfo
 	if op.kind == "query" {
 		q = sess.Query(op.stmt)
-	} else if len(op.binds) > 0 && !op.named && k.Tape == nil {
-		q = sess.Query(op.stmt, bindArgs(op.binds)...)
+	} else if op.rebind {
+		q = sess.Query(op.stmt, bindArgs(op.binds0)...)
 	} else {
 		args := bindArgs(op.binds)
 		q = sess.Bind(op.stmt, func(qi *gocql.QueryInfo) ([]interface{}, error) {
@@ -955,6 +983,13 @@ func wireRunOp(k *kernel.Kernel, sess *gocql.Session, op *wireOp, proto int, tra
 	}
 	if op.noSkipMeta {
 		q.NoSkipMetadata()
+	}
+	if op.rebind {
+		_ = q.Exec()
+		q.Bind(bindArgs(op.binds)...)
+		if op.pageState != nil {
+			q.PageState(op.pageState) // Bind starts the query over: it forgets a paging state
+		}
 	}
 	iter := q.Iter()
 	if op.kind == "exec" {
@@ -992,7 +1027,11 @@ func wireRunOp(k *kernel.Kernel, sess *gocql.Session, op *wireOp, proto int, tra
 }
 
 func wireCheckSeen(k *kernel.Kernel, op *wireOp) {
-	if op.mainSeen != 1 && k.Violation() == nil {
+	want := 1
+	if op.rebind {
+		want = 2
+	}
+	if op.mainSeen != want && k.Violation() == nil {
 		k.Violate("C03", "C03/request-count", "%s: the node received the %s request %d times (no retry policy configured)", op.token, op.kind, op.mainSeen)
 	}
 }
